@@ -57,6 +57,7 @@ class Check:
             self.tier = rp.get("tier", self.tier)
             only_index = rp.get("index")
             self.replay_comp = rp.get("component")
+            self.replay_n = rp.get("n")
         try:
             self.step_obligations()
             self.step_components(only_index)
@@ -80,7 +81,9 @@ class Check:
                                     "detail": err[-4000:]})
             self.bins[e2e] = b
         # 2. generated Coq files (T1/T2): regenerated from the working tree on every run
-        gdir = os.path.join(core.WORK, "gen_" + self.pid)
+        self.rundir = os.path.join(core.WORK, "run_%s_%d" % (self.pid, os.getpid()))
+        os.makedirs(self.rundir, exist_ok=True)
+        gdir = os.path.join(self.rundir, "gen")
         for g in sp.get("gens", []):
             b = self.bins.get(False)
             if b is None:
@@ -123,7 +126,7 @@ class Check:
                                         "detail": "non-standard axioms: %s\n%s" % (bad, out[-2000:])})
                 else:
                     self.discharged += n
-        hits = core.forbidden_scan()
+        hits = core.forbidden_scan(targets + corr_targets)
         if hits:
             self.broken.append({"kind": "broken-obligation", "name": "forbidden token in coq/", "detail": "\n".join(hits[:20])})
         if self.tier == "thorough" and ok and not self.replay and self.spec.get("coqchk", True):
@@ -144,7 +147,9 @@ class Check:
                 continue
             self.obligations += 1
             n = c.get("n_thorough", c.get("n_quick", 1000) * 10) if self.tier == "thorough" else c.get("n_quick", 1000)
-            out = os.path.join(core.WORK, "%s_%s" % (self.pid, c["comp"]))
+            if self.replay and getattr(self, "replay_n", None):
+                n = self.replay_n
+            out = os.path.join(self.rundir, c["comp"])
             if os.path.isdir(out):
                 for fn in os.listdir(out):
                     if fn.startswith("cases_") or fn in ("meta.json", "cases.jsonl"):
@@ -251,6 +256,9 @@ class Check:
         core.write_evidence(self.pid, ev)
         for l in lines:
             print(l)
+        if os.environ.get("VERIF_KEEP") != "1" and getattr(self, "rundir", None):
+            import shutil
+            shutil.rmtree(self.rundir, ignore_errors=True)
         if rc == 0:
             print("OK property=%s tier=%s obligations=%d/%d cases=%d wall=%.1fs" % (
                 self.pid, self.tier, self.discharged, self.obligations, cov["evaluations"], time.time() - self.t0))
